@@ -303,6 +303,13 @@ func isErrorType(t types.Type) bool {
 
 // callSucceeded: at state st it is known that call returned a nil error.
 func (m *ServerModel) callSucceeded(st *HState, root *FuncInfo, call *ast.CallExpr) bool {
+	if st.Dead {
+		return true
+	}
+	// The error variable may have been resolved to its only definition, the call itself.
+	if st.holds(m.resolver(root).str(call)+" == nil", true) {
+		return true
+	}
 	v, ok := m.errVarOf(st, root, call)
 	return ok && st.holds(v+" == nil", true)
 }
